@@ -773,7 +773,16 @@ class SocketProxy(object):
         env = ENV
         if env is not None:
             env.sched('sendall')
-        return self._s.sendall(data)
+        # the timeout the library left on the socket governs the owner's (and the library's own) sends too:
+        # carry the virtual setting over to the real socket for the duration of the call
+        real = self._s.gettimeout()
+        if self._timeout == real:
+            return self._s.sendall(data)
+        self._s.settimeout(self._timeout)
+        try:
+            return self._s.sendall(data)
+        finally:
+            self._s.settimeout(real)
 
     def close(self):
         return self._s.close()
